@@ -5,7 +5,7 @@
 From XcpModel Require Import Base Extents Sparse Blocks CopyLoop Uspace FileCopy.
 From XcpProofs Require Import ExtentsProofs SparseProofs BlocksProofs CopyLoopProofs UspaceProofs FileCopyProofs.
 From XcpModel Require Import Extracted.
-From XcpProofs Require Import ExtractedOk.
+From XcpProofs Require Import XExtents XBlocks XLoops.
 From XcpModel Require Import Uspace.
 From Coq Require Import Permutation.
 
@@ -132,3 +132,23 @@ Print Assumptions C05_src_fiemap_unsupported.
 Print Assumptions C05_src_block_job_step.
 Print Assumptions C05_src_copy_range_uspace_loop.
 Print Assumptions C05_src_copy_bytes_uspace_loop.
+
+(* ---- further glue on this property's path, pinned token for token (an edit re-opens the obligation; the run then
+   looks for a failing input) ---- *)
+From XcpPins Require Import Pin_linux_try_copy_file_range Pin_linux_copy_file_bytes Pin_linux_copy_file_offset Pin_linux_reflink Pin_main_main.
+From XcpProofs Require Import PinnedSource.
+Theorem C05_src_pin_linux_try_copy_file_range : pin_unchanged name_linux_try_copy_file_range.
+Proof. exact pin_linux_try_copy_file_range. Qed.
+Theorem C05_src_pin_linux_copy_file_bytes : pin_unchanged name_linux_copy_file_bytes.
+Proof. exact pin_linux_copy_file_bytes. Qed.
+Theorem C05_src_pin_linux_copy_file_offset : pin_unchanged name_linux_copy_file_offset.
+Proof. exact pin_linux_copy_file_offset. Qed.
+Theorem C05_src_pin_linux_reflink : pin_unchanged name_linux_reflink.
+Proof. exact pin_linux_reflink. Qed.
+Theorem C05_src_pin_main_main : pin_unchanged name_main_main.
+Proof. exact pin_main_main. Qed.
+Print Assumptions C05_src_pin_linux_try_copy_file_range.
+Print Assumptions C05_src_pin_linux_copy_file_bytes.
+Print Assumptions C05_src_pin_linux_copy_file_offset.
+Print Assumptions C05_src_pin_linux_reflink.
+Print Assumptions C05_src_pin_main_main.
